@@ -125,11 +125,13 @@ def dispatch : List String → String
     if evs.any Option.isNone then "bad-op"
     else if checkTrace (evs.filterMap id) then "exclusive" else "shared"
   | ["rest_rt", h] => runRestRT h
+  | ["rest_out", h] => runRestOut h
   | ["rest_in", h] => runRestIn h
   | ["rest_http", h] => runRestIn h
   | ["schema_tables", h] => runConfig h
   | ["schema_grpc", _] => "~same"
   | ["schema_req", _] => "~one outcome for every loading route"
+  | ["schema_rest_grpc", _] => "~a response that is valid for a REST client"
   | ["config", h] => runConfig h
   | ["config_err", h] => runConfigErr h
   | ["e2e_hist", h] => runE2E h ++ " ## " ++ runE2E h
